@@ -157,6 +157,75 @@ func e19FmtBound(f float64) string {
 }
 
 // e19SeqKey makes keys unique per (function, construct) in source order.
+// e19KeyFn attributes a construct to the function a reader would look for: a
+// helper that has exactly one calling function (all call sites in it, static
+// calls) is folded into that caller, so that extracting code into a helper does
+// not rename the construct (known findings and exceptions stay attached).
+// e19OnlyCalledFrom: fn is `name` or an unexported helper whose every call
+// chain (≤ 3 hops, static calls) starts in `name`.
+func e19OnlyCalledFrom(c *Ctx, fn *ssa.Function, name string) bool {
+	for fn.Parent() != nil {
+		fn = fn.Parent()
+	}
+	seen := map[*ssa.Function]bool{}
+	var up func(f *ssa.Function, d int) bool
+	up = func(f *ssa.Function, d int) bool {
+		if c.P.Name(f) == name {
+			return true
+		}
+		if d > 3 || seen[f] || ast.IsExported(f.Name()) {
+			return false
+		}
+		seen[f] = true
+		n := 0
+		for _, ed := range c.P.Callers(f) {
+			cf := ed.Caller.Func
+			if cf == nil || cf.Synthetic != "" {
+				continue
+			}
+			for cf.Parent() != nil {
+				cf = cf.Parent()
+			}
+			if ed.Site == nil || ed.Site.Common().StaticCallee() != f || !up(cf, d+1) {
+				return false
+			}
+			n++
+		}
+		return n > 0
+	}
+	return up(fn, 0)
+}
+
+func e19KeyFn(c *Ctx, fn *ssa.Function) *ssa.Function {
+	for hop := 0; hop < 3; hop++ {
+		if fn.Parent() != nil || c.P.IsControl(fn) || ast.IsExported(fn.Name()) {
+			return fn // only unexported helpers are folded into their caller
+		}
+		var caller *ssa.Function
+		for _, ed := range c.P.Callers(fn) {
+			cf := ed.Caller.Func
+			if cf == nil || cf.Synthetic != "" {
+				continue
+			}
+			if ed.Site == nil || ed.Site.Common().StaticCallee() != fn {
+				return fn
+			}
+			for cf.Parent() != nil {
+				cf = cf.Parent()
+			}
+			if caller != nil && caller != cf {
+				return fn
+			}
+			caller = cf
+		}
+		if caller == nil || caller == fn || c.P.Name(caller) == caller.String() || ast.IsExported(caller.Name()) {
+			return fn // helpers of exported functions keep their own name
+		}
+		fn = caller
+	}
+	return fn
+}
+
 type e19SeqKey map[string]int
 
 func (s e19SeqKey) key(c *Ctx, fn *ssa.Function, detail string) string {
@@ -225,7 +294,7 @@ func ruleErr7(c *Ctx, scope func(*ssa.Function) bool) {
 		c.Sites++
 		c.Touch(fn)
 		if lo == 0 && e.SizeDerived(v, at) {
-			c.Ok(seq.key(c, fn, what+" guarded"), c.Pos(at), "built from lengths, counters, library-reported sizes and constants only: carries no input-chosen magnitude")
+			c.Ok(seq.key(c, e19KeyFn(c, fn), what+" guarded"), c.Pos(at), "built from lengths, counters, library-reported sizes and constants only: carries no input-chosen magnitude")
 			return
 		}
 		leaf := ""
@@ -233,7 +302,7 @@ func ruleErr7(c *Ctx, scope func(*ssa.Function) bool) {
 			leaf = "; it is not size-derived because of " + valueLabel(f) + " (" + c.P.InstrPos(e19InstrOf(f)) + ")"
 		}
 		a := e.Eval(v, at, core.KInt)
-		keyLo := seq.key(c, fn, what+fmt.Sprintf(" ≥ %d", int(lo)))
+		keyLo := seq.key(c, e19KeyFn(c, fn), what+fmt.Sprintf(" ≥ %d", int(lo)))
 		if a.Bot || a.Lo >= lo {
 			c.Ok(keyLo, c.Pos(at), "argument ∈ "+e19FmtAV(a))
 		} else {
@@ -242,7 +311,7 @@ func ruleErr7(c *Ctx, scope func(*ssa.Function) bool) {
 		if !needUpper {
 			return
 		}
-		keyHi := seq.key(c, fn, what+" bounded")
+		keyHi := seq.key(c, e19KeyFn(c, fn), what+" bounded")
 		if a.Bot || !math.IsInf(a.Hi, 1) {
 			c.Ok(keyHi, c.Pos(at), "argument ∈ "+e19FmtAV(a))
 		} else {
